@@ -254,11 +254,24 @@ theorem kCore_exact (n : Nat) (adj : Nat → Nat → Bool) (k v : Nat) :
 theorem coreNumberSpec_exact (n : Nat) (adj : Nat → Nat → Bool) (v : Nat) (hv : v < n) :
     IsCoreNumber n adj v (coreNumberSpec n adj v) := coreNumberSpec_isCoreNumber n adj v hv
 
-/-- ★ `core_exact`, executable form: `get_core_decomposition` returns exactly the table of `coreNumberSpec` -/
-theorem core_exact_spec (n : Nat) (adj : Nat → Nat → Bool) (hsym : ∀ a b, adj a b = adj b a) :
-    computeCore (csrOfEdge n adj).indptr (csrOfEdge n adj).indices =
-      some (tab n fun v => (coreNumberSpec n adj v : Int)) := by
-  obtain ⟨labels, h1, h2, h3⟩ := computeCore_spec n adj hsym
+/-- ★ `core_exact` for every CSR representation of the graph (rows stored in any order, as scipy allows):
+    termination within `n` rounds and every label is the core number -/
+theorem core_exact_csr (n : Nat) (adj : Nat → Nat → Bool) (hsym : ∀ a b, adj a b = adj b a)
+    (indptr indices : List Nat) (hcsr : IsCsrOf n adj indptr indices) :
+    ∃ labels : List Int, computeCore indptr indices = some labels ∧ labels.length = n ∧
+      ∀ v, v < n → ∃ c : Nat, labels.getD v 0 = (c : Int) ∧ IsCoreNumber n adj v c :=
+  computeCore_spec_csr n adj hsym indptr indices hcsr
+
+/-- a CSR structure with unsorted rows: the triangle, every row stored in decreasing order -/
+example : IsCsrOf 3 (fun a b => a != b) [0, 2, 4, 6] [2, 1, 2, 0, 1, 0] :=
+  ⟨by decide, by decide, by decide⟩
+
+/-- ★ `core_exact`, executable form: `get_core_decomposition` returns exactly the table of `coreNumberSpec`,
+    on every CSR representation of the graph -/
+theorem core_exact_spec_csr (n : Nat) (adj : Nat → Nat → Bool) (hsym : ∀ a b, adj a b = adj b a)
+    (indptr indices : List Nat) (hcsr : IsCsrOf n adj indptr indices) :
+    computeCore indptr indices = some (tab n fun v => (coreNumberSpec n adj v : Int)) := by
+  obtain ⟨labels, h1, h2, h3⟩ := computeCore_spec_csr n adj hsym indptr indices hcsr
   rw [h1]
   congr 1
   apply List.ext_getElem
@@ -273,6 +286,26 @@ theorem core_exact_spec (n : Nat) (adj : Nat → Nat → Bool) (hsym : ∀ a b, 
         (tab n fun v => (coreNumberSpec n adj v : Int)).getD i 0 := by
       rw [List.getD_eq_getElem?_getD, List.getElem?_eq_getElem hi2]; rfl
     rw [e1, e2, hc1, tab_getD, if_pos hi, hu]
+
+theorem core_exact_spec (n : Nat) (adj : Nat → Nat → Bool) (hsym : ∀ a b, adj a b = adj b a) :
+    computeCore (csrOfEdge n adj).indptr (csrOfEdge n adj).indices =
+      some (tab n fun v => (coreNumberSpec n adj v : Int)) :=
+  core_exact_spec_csr n adj hsym _ _ (csrOfEdge_isCsrOf n adj)
+
+/-- ★ `count_cliques` end to end on every CSR representation: whatever order the rows are stored in, the result
+    is the number of `k`-cliques -/
+theorem count_cliques_exact_csr (n : Nat) (adj : Nat → Nat → Bool) (hsym : ∀ a b, adj a b = adj b a) (k : Nat)
+    (hk : 2 ≤ k) (indptr indices : List Nat) (hcsr : IsCsrOf n adj indptr indices) :
+    countCliques n ⟨indptr, indices⟩ adj k = .ok (some (cliqueCount n adj k)) := by
+  obtain ⟨labels, h1, h2, _⟩ := computeCore_spec_csr n adj hsym indptr indices hcsr
+  unfold countCliques
+  rw [if_neg (by omega)]
+  simp only
+  rw [h1]
+  simp only
+  have hp : (argsort labels).Perm (List.range n) := by rw [← h2]; exact argsort_perm labels
+  rw [cliques_exact n adj hsym k hk _ hp]
+  rfl
 
 /-- ★ `count_cliques` end to end (core values, `argsort`, `get_dag`, box, kernel): the number of `k`-cliques -/
 theorem count_cliques_exact (n : Nat) (adj : Nat → Nat → Bool) (hsym : ∀ a b, adj a b = adj b a) (k : Nat)
